@@ -27,7 +27,7 @@ def objhist_model(check, scratch, mode, maxops, export=False):
     d = scratch.sub('objhist')
     cfg = tlc.write_cfg(os.path.join(d, 'ObjHist.cfg'), spec='Spec', constants=dict(Inst={'i1', 'i2'}, MaxOps=maxops, MaxGot=2, CacheHoldsValue=mode),
                         invariants=['TypeOK', 'Reclaimed', 'NoStaleEntry'], constraints=['Export'] if export else [])
-    r = tlc.run_tlc('ObjHist', cfg, scratch, workers=1 if export else tlc.NCPU, timeout=1800, xmx='6g')
+    r = tlc.run_tlc('ObjHist', cfg, scratch, workers=1 if export else tlc.NCPU, timeout=1800, xmx='6g', coverage=True)
     check.add_model_run('ObjHist(cache=%s, MaxOps=%d)' % (mode, maxops), r)
     if r.invariants_violated:
         check.error('ObjHist(%s): invariant violated %s' % (mode, r.invariants_violated))
@@ -169,7 +169,7 @@ def run(check, tier, seed, scratch):
     # order part: model
     d = scratch.sub('modorder')
     cfg = tlc.write_cfg(os.path.join(d, 'ModOrder.cfg'), spec='Spec', constants=dict(Names=set('abc'), MaxNamed=3 if not quick else 2, MaxSteps=3, RangeForms=True), invariants=['OrderIndep', 'OrderIndepSet', 'TypeOK'])
-    r = tlc.run_tlc('ModOrder', cfg, scratch, workers=tlc.NCPU, timeout=2400, xmx='8g')
+    r = tlc.run_tlc('ModOrder', cfg, scratch, workers=tlc.NCPU, timeout=2400, xmx='8g', coverage=True)
     check.add_model_run('ModOrder', r)
     if r.invariants_violated:
         check.error('ModOrder: invariant violated %s\n%s' % (r.invariants_violated, r.out[-2000:]))
